@@ -151,7 +151,10 @@ class LessParser(object):
             print('Compiling target: %s' % filename, file=sys.stderr)
         self.result = self.parser.parse(file, lexer=self.lex, debug=debuglevel)
 
-        self.post_parse()
+        if not self.importlvl:
+            # The units of an imported file are evaluated by the importing
+            # parser, in the place they are spliced in.
+            self.post_parse()
         self.register.close()
 
     def post_parse(self):
